@@ -14,6 +14,12 @@
 (*             (kept by the driver); f0 = <<m, d, integers written>> for the first packed day.   *)
 (*  k = "ovf"  dt(y, m, d) / ymd(y, m, d) for every d of the runs <<lo, hi, kind, ...>>.         *)
 (*                                                                                               *)
+(*  k = "sess" a history of calls made one after the other in one process that had never called *)
+(*             dt() before: calls = <<[op, form, f, dl, wr, out], ...>>.  A call has no memory:   *)
+(*             every call is judged by Dates!Expected of that call alone, whatever preceded it;   *)
+(*             calls of the noise forms (not pinned by the statement) are not judged themselves   *)
+(*             and must be followed by a judged call.  where = <index of the call>:0.             *)
+(*                                                                                               *)
 (* Verdict: "" or "<clause>@<where>"; clause "bad_input" = the driver left the property's domain *)
 (* (a machinery failure, not a violation).                                                       *)
 EXTENDS Dates, Batch, SequencesExt
@@ -55,7 +61,19 @@ OvfVerdict(o) ==
     ELSE IF bad = {} THEN ""
     ELSE LET p == Least(bad) IN At3("overflow", o.m, p[2])
 
+\* ---- a history ----
+SessVerdict(o) ==
+    LET n == Len(o.calls)
+        W(i) == Expected(o.calls[i].op, o.calls[i].form, o.calls[i].f, o.calls[i].dl)
+        bad == {i \in 1..n : W(i)[1] # "unpinned" /\ ~SameOutcome(W(i), o.calls[i].out)} IN
+    IF n = 0 \/ (\E i \in 1..n : W(i)[1] = "undefined") \/ W(n)[1] = "unpinned" THEN "bad_input"
+    ELSE IF bad = {} THEN ""
+    ELSE LET i == CHOOSE j \in bad : \A jj \in bad : j <= jj
+             cc == o.calls[i] IN
+         At3(Clause(cc.op, cc.form, cc.wr, cc.dl, Denote(cc.form, cc.f, cc.dl)), i, 0)
+
 Verdict(o) == CASE o.k = "one" -> OneVerdict(o)
+                [] o.k = "sess" -> SessVerdict(o)
                 [] o.k = "yr"  -> YrVerdict(o)
                 [] o.k = "ovf" -> OvfVerdict(o)
                 [] OTHER -> "bad_input"
